@@ -273,9 +273,19 @@ def axiom_allowed(a):
 
 # ---------------------------------------------------------------- evaluating the model inside Coq
 
-def coq_eval(header, exprs, scratch, tag="cases", shard=400, timeout=900):
+def coq_eval(header, exprs, scratch, tag="cases", shard=400, timeout=900, fallback_header=None):
     """Evaluate each Gallina expression with vm_compute in parallel coqc runs.
-    exprs: list of strings. Returns list of raw result strings (the text after '= ' up to the type)."""
+    exprs: list of strings. Returns list of raw result strings (the text after '= ' up to the type).
+    fallback_header: a header that imports nothing from proofs/ (same definitions written out), used when the
+    first header cannot be loaded because a proof file no longer compiles - so that the search for a concrete
+    failing input can still use the model after an obligation has failed."""
+    if fallback_header is not None:
+        try:
+            return coq_eval(header, exprs, scratch, tag=tag, shard=shard, timeout=timeout)
+        except CheckError as e:
+            if "coqc failed" not in str(e):
+                raise
+            return coq_eval(fallback_header, exprs, scratch, tag=tag + "_fb", shard=shard, timeout=timeout)
     os.makedirs(scratch, exist_ok=True)
     shards = [exprs[i:i + shard] for i in range(0, len(exprs), shard)]
 
